@@ -202,6 +202,24 @@ def run(prog, tier) -> Result:
                 return None
             cr.run("R17.1", U(name), f"Unit{name} Unit {label} (hit)", setup, judge_hit, cache_hits=OPCACHE or True,
                    site=f"Unit.{name}")
+    # R17.2 whatever else the operators (or what they call) keep between calls - a second memo, a set of failures -
+    # must not show: the cases above as repeated calls (same state: same result; after the ambient state changed -
+    # directories may have grown -: the result of a recomputation with nothing memoised)
+    for name in ("__mul__", "__truediv__", "__rtruediv__", "__pow__"):
+        if prog.lookup(prog.cls("Unit"), name) is None:
+            continue
+        if name in ("__mul__", "__truediv__"):
+            setups = (("other type", two_units_other_type("ref")), ("same type [ref]", two_units_same_type("ref")),
+                      ("same type [money]", two_units_same_type("money")))
+        elif name == "__rtruediv__":
+            setups = (("number / unit", lambda c: ([c.new_type("T", **FLAVORS["ref"]) and None or c.unit("us", "T"),
+                                                    c.num("k", "dec")], {})),)
+        else:
+            setups = (("unit ** n", lambda c: ([c.new_type("T", **FLAVORS["ref"]) and None or c.unit("us", "T"),
+                                                Num(RF.const(2), "int")], {})),)
+        for label, setup in setups:
+            cr.run("R17.2", U(name), f"Unit{name} {label}", setup, lambda o: None, site=f"Unit.{name}", flag_kinds=())
+
     # the cache parameter is the module-level cache (default-argument alias)
     for name in ("__mul__", "__truediv__"):
         fi = U(name)
